@@ -143,6 +143,18 @@ fn main() {
                 println!("{} {}", s.name, s.property);
             }
         }
+        "merge-cover" => {
+            // union of the 8-byte cover hashes written by workers; prints the number of distinct ones
+            let mut all: Vec<u64> = Vec::new();
+            for path in &args[2..] {
+                if let Ok(bytes) = std::fs::read(path) {
+                    all.extend(bytes.chunks_exact(8).map(|c| u64::from_le_bytes(c.try_into().unwrap())));
+                }
+            }
+            all.sort_unstable();
+            all.dedup();
+            println!("{}", all.len());
+        }
         "gen" => {
             let sc = find(opt(&args, "--scenario").unwrap_or_else(|| die("--scenario")));
             let seed: u64 = opt(&args, "--seed").unwrap_or("0").parse().unwrap();
